@@ -268,7 +268,6 @@ struct RunResult
 };
 
 static std::string g_tmpdir;
-static FILE* g_dbg = nullptr;
 static long g_run_id = 0;
 
 static RunResult
@@ -384,12 +383,6 @@ run_impl(const shared_ptr<ProjDataInfo>& lm_pdi,
               res.frames.push_back(h);
             }
         }
-    }
-  catch (std::exception& e)
-    {
-      res.err = true;
-      if (std::getenv("C14_DEBUG"))
-        std::fprintf(g_dbg, "exception: %.60s | tofmash %d ntof %d nseg %d\n", e.what(), tpl->get_tof_mash_factor(), tpl->get_num_tof_poss(), tpl->get_num_segments());
     }
   catch (...)
     {
@@ -701,6 +694,16 @@ do_run(const Case& cs, const RunCfg& c, bool oracle, const std::string& what)
   RunResult r = run_impl(cs.lm_pdi, cs.tpl, cs.recs, cs.has_delayeds, c, &tpl_after);
   emit(run_line(c), fmt_result(r, c.in_memory));
   g_stat["runs"]++;
+  {
+    // one output per requested frame (a single one without frame definitions)
+    const std::size_t want = std::max<std::size_t>(1, c.frames.size());
+    if (!r.err && r.frames.size() != want)
+      {
+        ++g_checks;
+        oracle_fail(what + ": " + std::to_string(r.frames.size()) + " frames written, " + std::to_string(want) + " requested: " + run_line(c));
+        r.frames.resize(want);
+      }
+  }
   if (r.err)
     {
       g_stat["runs_err"]++;
@@ -714,6 +717,19 @@ do_run(const Case& cs, const RunCfg& c, bool oracle, const std::string& what)
   if (!oracle)
     return r;
   const ProjDataInfoCylindricalNoArcCorr& t = dynamic_cast<const ProjDataInfoCylindricalNoArcCorr&>(*tpl_after);
+  {
+    // "maximum absolute segment number to process": the output has exactly the segments -m..m, m = min(requested, template)
+    const int m = c.max_seg_proc == -1 ? cs.tpl->get_max_segment_num() : std::min(c.max_seg_proc, cs.tpl->get_max_segment_num());
+    ++g_checks;
+    if (t.get_max_segment_num() != m || t.get_min_segment_num() != -m)
+      oracle_fail(what + ": segment range after set_up is " + std::to_string(t.get_min_segment_num()) + ".." + std::to_string(t.get_max_segment_num())
+                  + ", expected +-" + std::to_string(m) + ": " + run_line(c));
+    // … and the histograms cover exactly that range
+    for (auto& h : r.frames)
+      for (auto& kv : h)
+        if (kv.second != 0 && std::abs(std::get<1>(kv.first)) > m)
+          oracle_fail(what + ": count in a segment that is not to be processed: " + run_line(c));
+  }
   const std::size_t nframes = std::max<std::size_t>(1, c.frames.size());
   for (std::size_t k = 0; k < nframes; ++k)
     {
@@ -791,7 +807,6 @@ main(int argc, char** argv)
     g_tmpdir = d + "/C14_tmp_" + argv[2] + "_" + argv[1] + "_" + std::to_string(static_cast<long>(::getpid()));
     ::mkdir(g_tmpdir.c_str(), 0777);
   }
-  g_dbg = std::fopen("/tmp/C14/debug.txt", "w");
   // LmToProjData reports progress on cerr/cout
   std::freopen("/dev/null", "w", stderr);
   std::freopen("/dev/null", "w", stdout);
@@ -863,7 +878,7 @@ main(int argc, char** argv)
   }
 
   // ------------------------------------------------------------------ generated cases
-  const int ncases = thorough ? 900 : 110;
+  const int ncases = thorough ? 2000 : 240;
   for (int ci = 0; ci < ncases; ++ci)
     {
       Case cs;
@@ -1032,7 +1047,9 @@ main(int argc, char** argv)
           if (sm == 4)
             base.storeD = true;
           // sm 0,1,2: (1,1)  3,5: (1,0)  4: (0,1)
-          // frames
+          // frames; a third of the frame sets are given through a frame definition FILE: their boundaries avoid the
+          // time marks (the file's durations are accumulated in floating point)
+          const bool want_file = rng.range(0, 2) == 0;
           std::set<long> bs;
           const int nb = rng.range(2, 5);
           for (int k = 0; k < nb + 3 && static_cast<int>(bs.size()) < nb; ++k)
@@ -1040,12 +1057,16 @@ main(int argc, char** argv)
               long b = pick_boundary();
               if (b <= 10)
                 b = rng.coin() ? 0 : 11 + rng.range(0, 50);
+              while (want_file && b != 0 && std::find(mark_times.begin(), mark_times.end(), b) != mark_times.end())
+                ++b;
               bs.insert(b);
             }
           if (rng.range(0, 2) == 0)
             bs.insert(0);
           if (rng.range(0, 3) == 0)
             bs.insert(t_end + rng.range(100, 1000)); // frame reaching beyond the end of the data
+          if (want_file && !mark_times.empty() && mark_times[0] == 0)
+            bs.erase(0);
           std::vector<long> b(bs.begin(), bs.end());
           if (b.size() < 2)
             b.push_back(b.back() + 50);
@@ -1074,7 +1095,7 @@ main(int argc, char** argv)
           g_stat["frames"] += static_cast<long>(base.frames.size());
 
           // reference run: everything in memory at once (default -1/-1)
-          base.frames_from_file = rng.range(0, 2) == 0 && !boundary_on_mark(cs.recs, base.frames);
+          base.frames_from_file = want_file && !boundary_on_mark(cs.recs, base.frames);
           if (base.frames_from_file)
             {
               g_stat["frames_from_file_runs"]++;
